@@ -402,6 +402,7 @@ func (w *World) RunCall(conn grpc.ClientConnInterface, spec *CallSpec) {
 		ctx, cancel = context.WithCancel(ctx)
 	}
 	defer cancel()
+	w.registerCancel(spec.ID, cancel)
 	if spec.CtxHook != nil {
 		ctx = spec.CtxHook(ctx)
 	}
